@@ -24,6 +24,7 @@ func c19(c *Ctx) {
 	c19lock(c)
 	c19release(c)
 	c19go(c)
+	c19idsource(c)
 }
 
 func ownerTest(f luax.Fact) (isOwnerTest bool, owner bool) {
@@ -348,4 +349,59 @@ func c19go(c *Ctx) {
 		})
 	}
 	c.R.Min(rule, 4, "AcquireCtx, ReleaseCtx, writers, constructor")
+}
+
+// c19idsource: the lock's id comes from stringx.Randn, whose generator state is one shared math/rand.Source.
+// A Source is a read-modify-write generator and not safe for concurrent use, so every call on it must be made
+// under the owner's EXCLUSIVE lock — under a read lock two concurrent NewRedisLock calls can read the same state
+// and obtain the same id, after which both "own" the key (the script's owner branch answers OK).
+func c19idsource(c *Ctx) {
+	rule := "C19.R4"
+	const pkg = "core/stringx"
+	sites := 0
+	for _, fn := range c.P.AllFuncs(pkg) {
+		uses := false
+		for _, b := range fn.Blocks {
+			for _, ins := range b.Instrs {
+				if ci, ok := ins.(ssa.CallInstruction); ok && ci.Common().IsInvoke() && isRandSource(ci.Common().Value.Type()) {
+					uses = true
+				}
+			}
+		}
+		if !uses {
+			continue
+		}
+		name := fn.RelString(fn.Pkg.Pkg)
+		c.R.Funcs[pkg+"."+name] = true
+		ps := c.paths(rule, fn, px.Config{MaxVisits: 2, MaxPaths: 10000})
+		c.forall(rule, pkg+"."+name, "every call on the shared math/rand.Source (a read-modify-write generator) is made while the owner's mutex is held exclusively", fn, ps, func(p *px.Path) (bool, string) {
+			held := 0
+			for i := range p.Events {
+				e := &p.Events[i]
+				switch {
+				case lockOn("lock", "Lock")(e):
+					held++
+				case lockOn("lock", "Unlock")(e):
+					held--
+				case e.Kind == px.EvCall && e.Call.Method != nil && e.Call.Recv != nil && isRandSource(e.Call.Method.Type().(*types.Signature).Recv().Type()):
+					sites++
+					if held <= 0 {
+						return false, "the generator is stepped (" + e.Call.Method.Name() + ") without the exclusive lock: concurrent callers can read the same state and draw the same id"
+					}
+				}
+			}
+			return true, ""
+		})
+	}
+	if sites == 0 {
+		c.R.Hold(rule, pkg+"#source", "no direct use of a math/rand.Source in the package (nothing to synchronise)", 0)
+	}
+}
+
+func isRandSource(t types.Type) bool {
+	n, ok := t.(*types.Named)
+	if !ok || n.Obj().Pkg() == nil {
+		return false
+	}
+	return n.Obj().Pkg().Path() == "math/rand" && (n.Obj().Name() == "Source" || n.Obj().Name() == "Source64")
 }
